@@ -1249,7 +1249,8 @@ ASSUMPTIONS = [
     'no handle), duplicate component types within one entity, duplicate '
     'processor types (two processors of the same exact type; a type and a '
     'subclass of it are two different types and are in the alphabet: part '
-    'processor-subclass), duplicate entity ids - an explicit id 1 is only listed '
+    'processor-subclass), duplicate entity ids - an explicit id 1 is only '
+    'listed '
     'before id-less entities -, rebinding a named ${...} python object '
     'between loads (object_from_string is documented as cached; its '
     'lru_cache is cleared around every case, never inside one)',
